@@ -167,6 +167,17 @@ def cases(tier):
                 if r % 2:
                     wf += [[u, v, rnd.choice((0, 1, 2, 5))] for u, v in st]                       # weights on source / sink edges too
                 yield dict(kind="antichain", edges=E, wf=wf)
+    # node names that can collide once auxiliary names are derived from them ('a_b' + 'c' vs 'a' + 'b_c', 'z1', '1' + '0' vs '10'): the width /
+    # antichain computed through an auxiliary network must not depend on how the caller names the nodes
+    NAMES_U = ("a", "a_b", "b_c", "c", "z1")
+    for gi, E in enumerate(_dag_list(tier, NAMES_U)):
+        if gi % (3 if q else 1):
+            continue
+        yield dict(kind="antichain", edges=E, wf=None)
+        yield dict(kind="antichain", edges=E, wf=[[u, v, 1 + (i % 2)] for i, (u, v) in enumerate(E)])
+    for E in ([["a_b", "c"], ["a", "b_c"]], [["a_b", "c"], ["a", "b_c"], ["a", "c"]], [["1", "0"], ["10", "2"]], [["x_y", "z"], ["x", "y_z"], ["x", "z"], ["x_y", "y_z"]]):
+        yield dict(kind="antichain", edges=E, wf=None)
+        yield dict(kind="antichain", edges=E, wf=[[u, v, 2] for u, v in E])
     # ---- peel
     for names in (graphs.NAMES1, graphs.NAMES2):
         for gi, E in enumerate(_dag_list(tier, names)):
